@@ -27,6 +27,10 @@ impl ClusterCreator {
     }
 
     pub fn is_full(&self, size: Size) -> bool {
+        #[cfg(jubako_verif)]
+        if self.offsets.len() >= crate::verif::max_blobs_per_cluster() {
+            return true;
+        }
         if self.offsets.len() == MAX_BLOBS_PER_CLUSTER {
             return true;
         }
